@@ -119,12 +119,52 @@ def counter_carry_chains(chk):
     chk.floor('first carries checked', n1[0], 8)
 
 
+def ctr_counter_advance(chk):
+    """br_block_ctr_class.run returns the counter for the next call: the initial 32-bit counter plus the number of 16-byte blocks
+    processed (a caller that splits a message relies on it).  Decided by partial evaluation: with len fixed to 16, 32, 48, 64 the
+    optimiser unrolls the block loop and the returned value must be cc + len/16."""
+    from .. import sym, oblig, fold
+    R = 'ctr-counter-advance'
+    n = 0
+    for fam in ('aes_big', 'aes_small', 'aes_ct', 'aes_ct64', 'aes_x86ni'):
+        src = 'src/symcipher/%s_ctr.c' % fam
+        fn = 'br_%s_ctr_run' % fam
+        try:
+            U = oblig.funit(src)
+        except AnalysisBroken:
+            continue
+        if fn not in U.funcs:
+            continue
+        F = U.func(fn)
+        pl = F.f['params'][4]
+        pure = 0
+        for K in (16, 32, 48, 64):
+            hy = [dict(kind='assume', n=pl['n'], ty=pl['ty'], pred='eq', value=K, param=True)]
+            Fo = U.optimise(fn, hy, ())
+            S = sym.Sym(Fo)
+            rv = [S.sym(v) for v in fold.ret_values(Fo)]
+            want = S.aff({('var', 'cc'): 1}, K // 16)
+            inst = '%s: a call over %d bytes returns cc + %d' % (fn, K, K // 16)
+            if not rv or any(len(r[1]) != 1 or r[1][0][0] != ('var', 'cc') for r in rv):
+                continue            # not reduced to an affine function of cc by the optimiser: not judged for this length
+            pure += 1
+            n += 1
+            if all(r == want for r in rv):
+                chk.ok(R, inst, src)
+            else:
+                chk.violation(R, inst, src, 'returned counter is %s: the next call of a split message would reuse or skip a keystream block'
+                              % [sym.show(r) for r in rv], key='%s %s %d' % (R, fam, K))
+        if pure < 3:
+            raise AnalysisBroken('%s: the returned counter could be evaluated for %d of 4 lengths only' % (fn, pure))
+    chk.floor('CTR counter evaluations', n, 12)
+
+
 def run(tier):
     chk = report.Check('C12', tier,
                        'Constant tables of the symmetric primitives compared with values generated from their standards (FIPS 197 S-box, inverse '
                        'S-box, round constants, the merged MixColumns tables; RFC 8439 ChaCha20 constants and rotation amounts, Poly1305 modulus, '
                        'clamp masks), and every block-cipher class descriptor (block size, log2, context_size == sizeof(keys), function slots wired '
-                       'to the same implementation family); the constant-time carry chains of the 128-bit CTR/CCM/EAX counters test the word just incremented. NOT decided: bitsliced circuits, key schedules, chaining logic, DES tables '
+                       'to the same implementation family); the constant-time carry chains of the 128-bit CTR/CCM/EAX counters test the word just incremented; the 32-bit CTR run functions return cc + len/16 (partial evaluation for 1-4 blocks). NOT decided: bitsliced circuits, key schedules, chaining logic, DES tables '
                        '(BearSSL-specific merged layout), equality of outputs across implementations.',
                        trusted=['reference generators in sa/tab.py', 'clang 14 constant folding'])
     R = 'aes-tables'
@@ -223,4 +263,5 @@ def run(tier):
                 chk.violation(R, inst, src, 'slots: %s' % slots, key='%s %s slots' % (R, gname))
     chk.floor('block classes', n, 20)
     counter_carry_chains(chk)
+    ctr_counter_advance(chk)
     return chk.finish()
